@@ -9,11 +9,21 @@ def run_scenario(case):
     loop = sessions.new_loop()
     try:
         proto, ft, s = sessions.attach(session.RPCSession, kind=case.get('kind', 'server'), transport=case['transport'], hwm=case['hwm'])
-        blind, wire = [], []
+        blind, wire, fragments = [], [], []
         orig = ft.write
+        import re
+        whole = re.compile(rb'(\d+):x*\n\Z')
 
         def write(data):
-            wid = int(data.split(b':')[0])
+            m = whole.match(bytes(data))
+            if m is None:
+                # not one whole framed message: a piece of one (another writer can get in between the pieces)
+                fragments.append(len(data))
+                if ft.paused:
+                    blind.append(-1)
+                orig(data)
+                return
+            wid = int(m.group(1))
             wire.append(wid)
             if ft.paused:
                 blind.append(wid)
@@ -51,9 +61,16 @@ def run_scenario(case):
                 elif k == 'advance':
                     await asyncio.sleep(ev[1])
             await sessions.settle(10)
-            return {'wire': wire, 'blind': blind, 'timeouts': sorted((w for w, o in outcome.items() if o == 'timeout'),
+            # what went out, as a byte stream: it must be a sequence of whole messages
+            stream = b''.join(bytes(x[1]) for x in ft.log if x[0] == 'write')
+            frames = re.findall(rb'(\d+):x*\n', stream)
+            garbled = b''.join(re.split(rb'\d+:x*\n', stream)) != b''
+            if fragments and not garbled:
+                wire[:] = [int(f) for f in frames]
+            return {'garbled': garbled, 'wire': wire, 'blind': blind, 'timeouts': sorted((w for w, o in outcome.items() if o == 'timeout'),
                                                                     key=lambda w: w),
                     'reading': ft.reading, 'outcome': {str(k): v for k, v in outcome.items()},
+                    'fragments': fragments[:10],
                     'aborted': any(x[0] == 'abort' for x in ft.log), 'pending': sum(1 for t in tasks if not t.done()),
                     'reads': [x[0] for x in ft.log if x[0] in ('pause_reading', 'resume_reading')]}
         return loop.run_until_complete(main())
@@ -91,7 +108,7 @@ class C15(Prop):
                 r = rng.random()
                 if r < 0.45 and w < 12:
                     w += 1
-                    ev.append(['send', w, rng.choice([1, 3, 6, 10, 40])])
+                    ev.append(['send', w, rng.choice([1, 3, 6, 10, 40, 40, 70000, 200000])])
                 elif r < 0.65:
                     ev.append(['drain'])
                 elif r < 0.85:
@@ -109,7 +126,7 @@ class C15(Prop):
         return run_scenario(case)
 
     def coq_case(self, case, obs):
-        if case.get('stall'):
+        if case.get('stall') or obs.get('garbled'):
             return None
         evs = []
         for e in case['events']:
@@ -133,6 +150,9 @@ class C15(Prop):
     def oracle(self, case, obs):
         if case.get('stall'):
             return self.stall_oracle(case, obs)
+        if obs.get('garbled'):
+            return ('the bytes written are not a sequence of whole messages: a message went out in pieces (sizes %s...) '
+                    'and was interleaved with another writer or never completed' % obs['fragments'][:4])
         if obs['blind']:
             return 'a message was written while the transport reported its send buffer full'
         if len(set(obs['wire'])) != len(obs['wire']):
@@ -164,8 +184,13 @@ class C15(Prop):
         try:
             aborts = []
 
+            class Sess(RPCSession):
+                # whoever is blocked - a notification, a request, a batch - and however long the caller is prepared to wait
+                # for the response: the stalled connection is aborted after max_send_delay
+                sent_request_timeout = case.get('sent_request_timeout', RPCSession.sent_request_timeout)
+
             async def main():
-                proto, ft, s = sessions.attach(RPCSession, 'server', case['transport'])
+                proto, ft, s = sessions.attach(Sess, 'server', case['transport'])
                 orig_abort, orig_close = ft.abort, ft.close
 
                 def abort():
@@ -183,7 +208,15 @@ class C15(Prop):
 
                 async def sender():
                     try:
-                        await s.send_notification('n', [1])
+                        kind = case.get('sender', 'notification')
+                        if kind == 'notification':
+                            await s.send_notification('n', [1])
+                        elif kind == 'request':
+                            await s.send_request('r', [1])
+                        else:
+                            async with s.send_batch() as b:
+                                b.add_request('r', [1])
+                                b.add_request('q')
                         out['sender'] = 'sent'
                     except BaseException as e:
                         out['sender'] = type(e).__name__
@@ -208,7 +241,7 @@ class C15(Prop):
             when = ('never' if not obs['aborts'] else 'only after %.1f s' % obs['aborts'][0])
             return (f'a message could not be written for max_send_delay = {d} s but the connection was aborted {when}'
                     + (' (a graceful close was pending)' if case['close_after'] is not None else ''))
-        if obs['sender'] != 'TaskTimeout':
+        if obs['sender'] != 'TaskTimeout' and case.get('sender', 'notification') == 'notification':
             return f"the blocked sender ended with {obs['sender']} instead of TaskTimeout"
         return None
 
@@ -226,6 +259,16 @@ class C15(Prop):
                 cl = self.stall_oracle(case, obs)
                 if cl:
                     out.append(Failure(case, obs, cl))
+            for sender in ('request', 'batch'):
+                for srt in (5.0, 19.5, 30.0, 45.0):
+                    case = {'stall': True, 'transport': transport, 'close_after': None, 'close_completes': False, 'force_after': 30,
+                            'sender': sender, 'sent_request_timeout': srt}
+                    obs = self.stall_scenario(case)
+                    n += 1
+                    ctx['extra_evals'] += 1
+                    cl = self.stall_oracle(case, obs)
+                    if cl:
+                        out.append(Failure(case, obs, cl + f' (blocked sender: a {sender}, sent_request_timeout = {srt})'))
         ctx['notes'].append(f'stalled-peer scenarios on a real session: {n} (with and without a graceful close pending)')
         return out[:3]
 
